@@ -536,7 +536,9 @@ def gen_cases(ctx):
     for h in PAUSE_HOOKS:
         for o in (1, 2):
             for v in ('before', 'after'):
-                for sc in pp + [{i: ['pause']} for i in P] + [{**s, 8: ['kill']} for s in pp[::5]]:
+                # (also: a second pause after the one whose hook failed, with no play in between - it must still take effect)
+                pp2 = [{i: ['pause'], j: ['pause']} for i in P for j in P if j > i][::2]
+                for sc in pp + [{i: ['pause']} for i in P] + [{**s, 8: ['kill']} for s in pp[::5]] + pp2:
                     cases.append(dict(fault=('hook', h, o, v), schedule=sc))
     for st in STEPS:
         for sc in plain + kills + pp[::2]:
